@@ -169,7 +169,7 @@ class Gen:
     def needs_default(self, f):
         return f.ignore or (f.ver is not None)
 
-    def field_sx_expr(self, owner, f, offset_expr):
+    def field_sx_expr(self, owner, f, offset_expr, name=None):
         """Rust expression producing the `(f NAME OFF TY attrs…)` string."""
         parts = []
         if f.ver is not None:
@@ -186,7 +186,7 @@ class Gen:
         for (lo, hi, old, conv) in f.as_:
             parts.append('format!("(as %d %d {} %d)", <%s as ZooVal>::ty_sx())' % (lo, hi, conv, old))
         attrs = "vec![%s].join(\" \")" % ", ".join(parts) if parts else "String::new()"
-        return 'format!("(f %s {} {} {})", %s, <%s as ZooVal>::ty_sx(), %s)' % (f.name, offset_expr, f.rust_ty(), attrs)
+        return 'format!("(f %s {} {} {})", %s, <%s as ZooVal>::ty_sx(), %s)' % (name if name is not None else f.name, offset_expr, f.rust_ty(), attrs)
 
     def emit_helpers(self, owner, fields):
         for f in fields:
@@ -318,7 +318,8 @@ class Gen:
                 self.w("                    let fs: Vec<String> = vec![")
                 for i, f in enumerate(v.fields):
                     self.w("                        %s," % self.field_sx_expr(e.name + "_" + v.name, f,
-                                                                            "(%s as *const %s as usize - base)" % (binder(v, i, f), f.rust_ty())))
+                                                                            "(%s as *const %s as usize - base)" % (binder(v, i, f), f.rust_ty()),
+                                                                            name=(str(i) if v.kind == "tuple" else None)))
                 self.w("                    ];")
                 self.w('                    vs.push(format!("(v %s %s %s {})", fs.join(" ")));' % (v.name, vsx, dsx))
                 self.w("                }, _ => unreachable!() }")
@@ -431,6 +432,8 @@ LIB = [
     ("std::collections::HashMap<String, Vec<u8>>", "HashMap_String_Vec_u8"),
     ("std::collections::BTreeMap<u8, u64>", "BTreeMap_u8_u64"), ("indexmap::IndexMap<u16, String>", "IndexMap_u16_String"),
     ("rustc_hash::FxHashMap<u32, u32>", "FxHashMap_u32_u32"),
+    ("std::collections::HashMap<u32, Vec<u32>>", "HashMap_u32_Vec_u32"), ("indexmap::IndexMap<u8, Option<Box<u8>>>", "IndexMap_u8_Opt_Box_u8"),
+    ("std::collections::BTreeMap<u32, Vec<u32>>", "BTreeMap_u32_Vec_u32"),
     ("Option<u8>", "Opt_u8"), ("Option<String>", "Opt_String"), ("Option<Option<u32>>", "Opt_Opt_u32"),
     ("Option<Vec<u16>>", "Opt_Vec_u16"), ("Option<Box<u32>>", "Opt_Box_u32"),
     ("Result<u32, String>", "Res_u32_String"), ("Result<Vec<u8>, u8>", "Res_Vec_u8_u8"), ("Result<(), ()>", "Res_unit_unit"),
